@@ -10,11 +10,16 @@ import (
 
 // c16Field builds one struct field of a kind chosen by the shape grammar.
 func c16Field(g *symir.Gen, name string) ast.StructField {
-	var t ast.Type
 	nk := 6
 	if v.Tier() == 0 {
 		nk = 4 // quick: scalar, constant, reference, constant reference
 	}
+	return c16FieldOf(g, name, nk)
+}
+
+// c16FieldOf: a field over the first nk kinds of the shape grammar.
+func c16FieldOf(g *symir.Gen, name string, nk int) ast.StructField {
+	var t ast.Type
 	switch v.Choose(nk) {
 	case 0: // plain scalar, possibly with default and constraints
 		t = g.Scalar()
@@ -67,7 +72,7 @@ func c16Schemas() (ast.Schemas, *symir.Gen) {
 			// thorough: the second field ranges over every kind too, with plain leaves (no default / constraint of its own)
 			lean := *g
 			lean.Defaults, lean.Constraints = false, false
-			fields = append(fields, c16Field(&lean, name))
+			fields = append(fields, c16FieldOf(&lean, name, 3))
 			continue
 		}
 		fields = append(fields, c16Field(g, name))
